@@ -55,6 +55,9 @@ func psum(s []IntType, n int) IntType {
 // rngSame(): no source was drawn from between the old and the current state.
 func rngSame() bool { panic("spec only") }
 
+// rngOnly(src): no source other than src was drawn from between the old and the current state.
+func rngOnly(src *rand.PCGSource) bool { panic("spec only") }
+
 // isFresh(x): x is nil or was allocated after function entry.
 func isFresh(x any) bool { panic("spec only") }
 
@@ -162,12 +165,19 @@ func getSource
   props C05 C06
   ensures result != nil
 
+func ctxRandSrc
+  props C06
+  pure
+  ensures ctx != nil ==> result == ctx.RandSrc
+  ensures ctx == nil ==> result == nil
+
 func _roll64
   props C05 C04
   requires src != nil
   requires dicePoints >= 1
   ensures [C04 C05] 1 <= result && result <= dicePoints
   ensures [C05] rngPos(src) > old(rngPos(src))
+  ensures [C06] rngOnly(src)
   ensures [C05] result == int64(rngDraw(src, rngPos(src)-1) % uint64(dicePoints)) + 1
   ensures [C05] uint64(dicePoints)&(uint64(dicePoints)-1) != 0 ==> rngDraw(src, rngPos(src)-1) < math.MaxUint64 - math.MaxUint64%uint64(dicePoints)
   ensures [C05] uint64(dicePoints)&(uint64(dicePoints)-1) != 0 ==> forall j in [old(rngPos(src)), rngPos(src)-1): rngDraw(src, j) >= math.MaxUint64 - math.MaxUint64%uint64(dicePoints)
@@ -175,6 +185,7 @@ func _roll64
   assigns rng.pos
   loop 1
     invariant v == rngDraw(src, rngPos(src)-1)
+    invariant rngOnly(src)
     invariant rngPos(src) > old(rngPos(src))
     invariant forall j in [old(rngPos(src)), rngPos(src)-1): rngDraw(src, j) >= ceiling
 
@@ -183,6 +194,7 @@ func Roll
   requires dicePoints >= 0
   assigns rng.pos
   ensures [C15] dicePoints == 0 || mod == 1 || mod == -1 ==> rngSame()
+  ensures [C06] src != nil ==> rngOnly(src)
   ensures [C04 C15] dicePoints == 0 ==> result == 0
   ensures [C15] dicePoints > 0 && mod == -1 ==> result == 1
   ensures [C15] dicePoints > 0 && mod == 1 ==> result == dicePoints
